@@ -115,6 +115,8 @@ NOTES.update({
  "C01-6": ("caught", ""),
  "C02-6": ("missed at first (the change was made in quat_matmat, which the C02 monitor did not call: products were formed by the oracle)", "homomorphism also with the product formed by the library; entry class two_axis (only two of the four component planes populated)"),
  "C03-6": ("caught", ""),
+ "C04-6": ("caught", ""),
+ "C16-6": ("caught", ""),
  "C05-6": ("caught", ""),
  "C06-6": ("caught", ""),
  "C07-6": ("caught by thorough only", "every forced pivot order again on exactly scaled copies (2^-30, 2^-40, 2^30); scaled_small class down to 1e-12"),
